@@ -183,6 +183,9 @@ impl Rw {
                     let mut t = t.clone();
                     t.lifetimes = None;
                     self.visit_path_mut(&mut t.path);
+                    let mut p = t.path.clone();
+                    self.map_path(&mut p);
+                    t.path = p;
                     out.push(TypeParamBound::Trait(t));
                 }
                 o => out.push(o.clone()),
